@@ -53,6 +53,27 @@ logger = get_logger(__name__)
 
 # signature, bb, systemz
 # signature, bb, random_min_c_rep
+def _load_json_or_pickle(path: pathlib.Path) -> object:
+    """
+    Read back a file written by save_metadata / export_impacts.
+
+    Those functions choose the format by suffix (case-insensitively) and otherwise by
+    their ``fmt`` argument (default JSON), so a file with another suffix may hold
+    either format: JSON files are UTF-8 text, pickles are not.
+    """
+    suffix = path.suffix.lower()
+    if suffix == ".json":
+        return json.loads(path.read_text())
+    if suffix in {".pkl", ".pickle"}:
+        with path.open("rb") as fd:
+            return pickle.load(fd)
+    raw = path.read_bytes()
+    try:
+        return json.loads(raw.decode("utf-8"))
+    except (UnicodeDecodeError, ValueError):
+        return pickle.loads(raw)
+
+
 class PreOCF(ABC):
     """Abstract base class for ordinal conditional functions (Pre-OCFs).
 
@@ -205,11 +226,7 @@ class PreOCF(ABC):
             )
             return
 
-        if path.suffix == ".json":
-            data = json.loads(path.read_text())
-        else:  # assume pickle by default
-            with path.open("rb") as fd:
-                data = pickle.load(fd)
+        data = _load_json_or_pickle(path)
 
         if not isinstance(data, dict):
             raise ValueError("Metadata file did not contain a dict")
@@ -1041,13 +1058,7 @@ class RandomMinCRepPreOCF(PreOCF):
         if not path.exists():
             raise FileNotFoundError(f"Impact file not found: {path}")
 
-        # Determine format from file extension
-        if path.suffix == ".json":
-            with path.open("r") as fd:
-                impact_data = json.load(fd)
-        else:  # assume pickle
-            with path.open("rb") as fd:
-                impact_data = pickle.load(fd)
+        impact_data = _load_json_or_pickle(path)
 
         # Validate the imported data
         if not isinstance(impact_data, dict):
